@@ -3,6 +3,7 @@ package verifh
 import (
 	"fmt"
 	"net/url"
+	"reflect"
 	"strings"
 	"testing"
 	"time"
@@ -44,7 +45,44 @@ var c10Ops = []string{
 	"RandomSecret", "ParseOTPAuthURL", "GenerateHOTP", "GenerateHOTPURL", "ValidateHOTP", "GenerateTOTP", "GenerateTOTPURL", "ValidateTOTP",
 	"GenerateOCRA", "ValidateOCRA", "DecodeSecret", "NewSuite", "ListSuites", "IsKnownSuite", "SuiteConfigFromRaws", "SuiteConfig.methods",
 	"NewRawSuite", "RawSuite.methods", "ParseDecimalToBigEndian8", "LeftPadHex", "ParseDecimal64BigEndian", "ParseHexTimestamp",
-	"ParseDecimalChallengeRFC6287", "To8ByteBigEndian",
+	"ParseDecimalChallengeRFC6287", "To8ByteBigEndian", "URLParam.reflect", "Param.reflect",
+}
+
+// fillReflect sets EVERY exported field of a parameter struct — also fields this harness has never heard of — from the
+// case: strings from the drawn strings (a quarter empty), integers from the drawn 64-bit values (boundaries included),
+// enumerations half of the time inside their supported range.
+func fillReflect(v reflect.Value, c c10Case) {
+	mix := c.U ^ (c.Period * 0x9e3779b97f4a7c15) ^ (uint64(c.Digits) << 40) ^ (uint64(c.Algo) << 48) ^ (c.Skew << 7)
+	nums := []uint64{c.U, c.Period, c.Skew, uint64(c.Digits), uint64(c.Algo), 1 << 62, ^uint64(0), 1 << 48}
+	for i := 0; i < v.NumField(); i++ {
+		f := v.Field(i)
+		if !f.CanSet() {
+			continue
+		}
+		bits := mix >> (uint(i*5) % 60)
+		switch f.Kind() {
+		case reflect.String:
+			if bits&3 == 0 {
+				f.SetString("")
+			} else {
+				f.SetString(string(c.S[i%len(c.S)]))
+			}
+		case reflect.Uint, reflect.Uint8, reflect.Uint16, reflect.Uint32, reflect.Uint64:
+			x := nums[int(bits>>2)%len(nums)]
+			if f.Type().PkgPath() != "" && f.Kind() == reflect.Uint8 && bits&1 == 0 {
+				x = []uint64{0, 1, 2, 6, 8, 10}[int(bits>>2)%6] // a named small enumeration: a supported value
+			}
+			f.SetUint(x)
+		case reflect.Int, reflect.Int8, reflect.Int16, reflect.Int32, reflect.Int64:
+			f.SetInt(int64(nums[int(bits>>2)%len(nums)]))
+		case reflect.Bool:
+			f.SetBool(bits&1 == 1)
+		case reflect.Slice:
+			if f.Type().Elem().Kind() == reflect.Uint8 {
+				f.SetBytes(c.bs(i % 5))
+			}
+		}
+	}
 }
 
 func (c c10Case) bs(i int) []byte {
@@ -86,6 +124,24 @@ func callC10(c c10Case) string {
 	s := func(i int) string { return string(c.S[i]) }
 	t := time.Unix(c.Unix, c.Nsec)
 	switch c.Op {
+	case "URLParam.reflect":
+		// a size taken from an argument can also end the process outright (out of memory is not a panic): the case is
+		// left behind for the driver while it runs
+		defer ev.Inflight("C10", "main", c)()
+		var up otp.URLParam
+		fillReflect(reflect.ValueOf(&up).Elem(), c)
+		_, e1 := otp.GenerateTOTPURL(up)
+		_, e2 := otp.GenerateHOTPURL(up)
+		return fmt.Sprint(e1, e2)
+	case "Param.reflect":
+		defer ev.Inflight("C10", "main", c)()
+		var p otp.Param
+		fillReflect(reflect.ValueOf(&p).Elem(), c)
+		_, e1 := otp.GenerateHOTP(validSecret, c.U, &p)
+		_, e2 := otp.ValidateHOTP(validSecret, codeOfLen(int(p.Digits)), c.U, &p)
+		_, e3 := otp.GenerateTOTP(validSecret, t, &p)
+		_, e4 := otp.ValidateTOTP(validSecret, codeOfLen(int(p.Digits)), t, &p)
+		return fmt.Sprint(e1, e2, e3, e4)
 	case "Digits.Int":
 		return fmt.Sprint(otp.Digits(c.Digits).Int())
 	case "DigitsFromStr":
@@ -243,7 +299,7 @@ func checkC10(c c10Case) verdict {
 }
 
 var c10Main = newPart("C10", "main",
-	"rapid: every exported function and method except MustRawSuite / MustHexPadLeft (31 operations incl. the default TimeCounterFunc value) with arguments from hostile-biased generators: enums 0..255, uint/uint64/int64 boundaries, strings (valid and invalid UTF-8, empty, 64 KiB, syntax-shaped near-misses), byte slices nil/empty/boundary lengths/64 KiB, arbitrary Param / URLParam / SuiteConfig / OCRAInput field combinations, instants incl. pre-epoch and beyond year 2262, URLs parsed from generated text, hand-built and nil; LeftPadHex widths 0..2^20; suites only of the library's own types; oracle: recover() => no panic, 15 s + 30 s double watchdog => no hang; non-trivial = at least one argument drawn from outside the happy range",
+	"rapid: every exported function and method except MustRawSuite / MustHexPadLeft (31 operations incl. the default TimeCounterFunc value, plus URLParam and Param filled field by field through reflection, so that fields added later are set as well) with arguments from hostile-biased generators: enums 0..255, uint/uint64/int64 boundaries, strings (valid and invalid UTF-8, empty, 64 KiB, syntax-shaped near-misses), byte slices nil/empty/boundary lengths/64 KiB, arbitrary Param / URLParam / SuiteConfig / OCRAInput field combinations, instants incl. pre-epoch and beyond year 2262, URLs parsed from generated text, hand-built and nil; LeftPadHex widths 0..2^20; suites only of the library's own types; oracle: recover() => no panic, 15 s + 30 s double watchdog => no hang; non-trivial = at least one argument drawn from outside the happy range",
 	checkC10)
 
 const validSecret = "GEZDGNBVGY3TQOJQGEZDGNBVGY3TQOJQ"
